@@ -1164,7 +1164,11 @@ emittentativedefns(void)
 	struct decl *d;
 
 	for (d = tentativedefns; d; d = d->next) {
-		if (!d->defined)
-			defineobj(d, NULL, false, NULL);
+		if (d->defined)
+			continue;
+		/* an array of unknown size is completed with one element (C11 6.9.2p2, p5) */
+		if (d->type->kind == TYPEARRAY && d->type->incomplete)
+			d->type = mkarraytype(d->type->base, d->type->qual, 1);
+		defineobj(d, NULL, false, NULL);
 	}
 }
